@@ -29,7 +29,10 @@ func init() {
 			"Anchors are found by role: the validator calls by the interface method invoked, the aggregator by its signature ([]*CertRevocationResult in, result.Result out), the revocation function as the top-most function that returns an object with an error field and reaches all of them, at whatever boundary helpers were cut; " +
 			"an exit whose object is built by a constructor (function, method, closure, delegating constructor) fails iff what the constructor puts into Error is non-nil with the arguments of the call; " +
 			"the facts required on success exits are branches on SSA values that hand on the validators' error / the aggregator's result, in any function between the revocation function and the anchor calls, rendered in its frame through the call sites; " +
-			"a nil test of the validator fields computed by a predicate helper is decided by abstract interpretation of the helper with both fields nil.",
+			"a nil test of the validator fields computed by a helper (a boolean predicate, or a helper that returns the selected validator) is decided by abstract interpretation of the helper with both fields nil. " +
+			"An interface call whose receiver is followed (phis, returns of a selecting helper, parameters fed by closed call sites) to the conversion of a value of an unexported module type runs that type's method: " +
+			"such an adapter (the deprecated client wrapped as a context-aware validator) is part of the call tree, the interface call hands on what the adapter's returns hand on, and the adapter method's parameters hold what the interface calls pass that every conversion of the type flows to (the list is closed only if no such interface value is stored, captured or passed out of the module); " +
+			"a value read from a field of a locally filled struct is judged on everything stored into that field (and the zero value unless a store precedes the read on every path).",
 		NotCov: "OCSP/CRL evaluation (notation-core-go revocation); result vectors are covered as abstract states, not as enumerated concrete vectors.",
 		Trusted: []string{"go/types, go/ssa", "notation-core-go revocation.Validator / Revocation", "soundness of the counter abstraction: the counter is only incremented by 1, at most once per iteration (checked)",
 			"standard library slices.Backward / slices.All yield (i, s[i]) for every index of s exactly once, in descending / ascending order, until the loop body breaks"},
@@ -91,75 +94,134 @@ func runC05(c *Ctx) {
 	R, A, aCall, vcCall, vCall := an.Top, an.A, an.aCall, an.vcCall, an.vCall
 	c.SeenFn(R.String())
 	// (b) arguments
-	var optChain, optTime ssa.Value
-	if al, ok := unwrapLoadAlloc(vcCall.Call.Args[1]); ok {
+	// The options handed to the context-aware validator: a struct value. Its fields are followed on SSA values to what
+	// was stored into them (c05Leaves: the struct may be filled in by a literal, field by field, copied from another
+	// local). optTime is the value stored into AuthenticSigningTime where the literal states one.
+	optsVal := vcCall.Call.Args[1]
+	optField := func(name string) int {
+		if st, ok := optsVal.Type().Underlying().(*types.Struct); ok {
+			for i := 0; i < st.NumFields(); i++ {
+				if st.Field(i).Name() == name {
+					return i
+				}
+			}
+		}
+		return -1
+	}
+	var optTime ssa.Value
+	if al, ok := unwrapLoadAlloc(optsVal); ok {
+		// the one value the field is given: a single store to it, executed before the options are read, in a cell that
+		// is not written as a whole
+		var stores []*ssa.Store
+		whole := false
 		for _, r := range *al.Referrers() {
-			if fa, ok := r.(*ssa.FieldAddr); ok {
-				for _, rr := range *fa.Referrers() {
-					if st, ok := rr.(*ssa.Store); ok && st.Addr == fa {
-						switch fieldName(al.Type(), fa.Field) {
-						case "CertChain":
-							optChain = st.Val
-						case "AuthenticSigningTime":
-							optTime = st.Val
-						}
+			switch x := r.(type) {
+			case *ssa.Store:
+				whole = true
+			case *ssa.FieldAddr:
+				for _, rr := range *x.Referrers() {
+					if st, ok := rr.(*ssa.Store); ok && st.Addr == x && fieldName(al.Type(), x.Field) == "AuthenticSigningTime" {
+						stores = append(stores, st)
 					}
 				}
 			}
+		}
+		if ld, isInstr := optsVal.(ssa.Instruction); isInstr && !whole && len(stores) == 1 && c05Before(stores[0], ld) {
+			optTime = stores[0].Val
 		}
 	}
 	// A chain operand that is (a field path of) a parameter of an extracted helper is judged at every call site of the
 	// helper (the list of call sites must be closed: unexported, never used as a value): what the validator receives is
 	// what the callers pass. Either the operand is the parameter itself (followed on SSA values), or its printed form
 	// mentions parameters — the helper was handed the SignerInfo, the EnvelopeContent or the whole outcome instead of the
-	// chain — and is rendered in R's frame by substituting them with the arguments of the call sites.
+	// chain — and is rendered in R's frame by substituting them with the arguments of the call sites. An operand read from
+	// a struct (the options value; the options parameter of an adapter method, which holds what the interface call that
+	// dispatches to the adapter passes) is judged on every value the field may hold (c05Leaves), each rendered in R's frame.
 	const chainSuffix = ".EnvelopeContent.SignerInfo.CertificateChain"
-	chainOK := func(v ssa.Value, in *ssa.Function) (bool, string) {
+	chainOK := func(v ssa.Value, path []int, in *ssa.Function) (bool, string) {
 		if v == nil {
 			return false, "?"
 		}
 		var ds []string
-		if os, ok := c05Origins(w, v, 3); ok && len(os) > 0 {
-			all := true
-			for _, o := range os {
-				d := desc(o)
-				ds = append(ds, d)
-				if !strings.HasSuffix(d, chainSuffix) {
-					all = false
+		if len(path) == 0 {
+			if os, ok := c05Origins(w, v, 3); ok && len(os) > 0 {
+				all := true
+				for _, o := range os {
+					d := desc(o)
+					ds = append(ds, d)
+					if !strings.HasSuffix(d, chainSuffix) {
+						all = false
+					}
+				}
+				if all {
+					return true, strings.Join(uniq(sortStrings(ds)), " / ")
 				}
 			}
-			if all {
-				return true, strings.Join(uniq(sortStrings(ds)), " / ")
+			if lifted := c05Lift(w, desc(v), in, R, 4); len(lifted) > 0 {
+				all := true
+				for _, d := range lifted {
+					if !strings.HasSuffix(d, chainSuffix) {
+						all = false
+					}
+				}
+				if all {
+					return true, strings.Join(uniq(sortStrings(lifted)), " / ")
+				}
+				ds = lifted
 			}
 		}
-		lifted := c05Lift(w, desc(v), in, R, 4)
-		if len(lifted) == 0 {
+		leaves, ok := c05Leaves(w, v, path, []c05Frame{{in, nil}}, 6, map[c05SeenKey]bool{})
+		if !ok || len(leaves) == 0 {
 			if len(ds) == 0 {
-				return false, desc(v) + " (call sites not all known)"
+				return false, desc(v) + " (not followed to its sources)"
 			}
 			return false, strings.Join(uniq(sortStrings(ds)), " / ")
 		}
 		all := true
-		for _, d := range lifted {
-			if !strings.HasSuffix(d, chainSuffix) {
+		var ls []string
+		for _, lf := range leaves {
+			rendered := []string{desc(lf.v)}
+			if f := c05ParentOf(lf.v); f != nil {
+				rendered = c05Lift(w, desc(lf.v), f, R, 4)
+			}
+			if len(rendered) == 0 {
 				all = false
+				ls = append(ls, desc(lf.v)+" (call sites not all known)")
+			}
+			for _, d := range rendered {
+				ls = append(ls, d)
+				if !strings.HasSuffix(d, chainSuffix) {
+					all = false
+				}
 			}
 		}
-		return all, strings.Join(uniq(sortStrings(lifted)), " / ")
+		return all, strings.Join(uniq(sortStrings(ls)), " / ")
 	}
-	okC, dC := chainOK(optChain, vcCall.Parent())
+	okC, dC := false, "?"
+	if k := optField("CertChain"); k >= 0 {
+		okC, dC = chainOK(optsVal, []int{k}, vcCall.Parent())
+	}
 	c.Check(okC, "args/chain-context-validator", "provenance: ValidateContext receives the complete (unsliced) SignerInfo.CertificateChain of the verified envelope", w.InstrPos(vcCall), "CertChain is "+dC)
-	okC, dC = chainOK(vCall.Call.Args[0], vCall.Parent())
+	okC, dC = chainOK(vCall.Call.Args[0], nil, vCall.Parent())
 	c.Check(okC, "args/chain-deprecated-client", "provenance: Revocation.Validate receives the complete (unsliced) SignerInfo.CertificateChain of the verified envelope", w.InstrPos(vCall), "chain argument is "+dC)
 	tV := vCall.Call.Args[1]
-	// the same SSA value in one frame, or — when the value is a helper's parameter — the same single origin
+	// the same SSA value in one frame, or — when the value is a helper's parameter — the same single origin, or the
+	// client's operand is read from the AuthenticSigningTime field of the very options value the context-aware validator
+	// receives (an adapter that unpacks the options: a struct value does not change once it is loaded)
 	sameTime := optTime != nil && optTime == tV
 	if !sameTime && optTime != nil {
 		o1, ok1 := c05Origins(w, optTime, 3)
 		o2, ok2 := c05Origins(w, tV, 3)
 		sameTime = ok1 && ok2 && len(o1) == 1 && len(o2) == 1 && o1[0] == o2[0]
 	}
-	c.Check(sameTime, "args/same-signing-time", "sibling agreement: both validator interfaces receive the same signing-time value", w.InstrPos(vCall), fmt.Sprintf("context validator gets %s, client gets %s", desc(optTime), desc(tV)))
+	if !sameTime {
+		if k := optField("AuthenticSigningTime"); k >= 0 {
+			b1, p1 := c05CellOrigin(w, tV, nil)
+			b2, p2 := c05CellOrigin(w, optsVal, []int{k})
+			sameTime = b1 == b2 && len(p1) == 1 && len(p2) == 1 && p1[0] == p2[0]
+		}
+	}
+	c.Check(sameTime, "args/same-signing-time", "sibling agreement: both validator interfaces receive the same signing-time value", w.InstrPos(vCall), fmt.Sprintf("context validator gets %s, client gets %s", c05Desc(optTime), desc(tV)))
 	sa, _ := w.depConstString("github.com/notaryproject/notation-core-go/signature", "SigningSchemeX509SigningAuthority")
 	// Every value that can flow into the signing-time operand (through phis, up through a helper's parameter to all call
 	// sites, down through a module helper to the operands of its returns) is either the zero time or the result of
@@ -167,7 +229,7 @@ func runC05(c *Ctx) {
 	// was reached through (the helper that computes it, or its caller). Both kinds must occur.
 	okTime := false
 	detail := "signing time is " + desc(tV)
-	if leaves, ok := c05Leaves(w, tV, []c05Frame{{vCall.Parent(), vCall.Block()}}, 4, map[ssa.Value]bool{}); ok {
+	if leaves, ok := c05Leaves(w, tV, nil, []c05Frame{{vCall.Parent(), vCall.Block()}}, 6, map[c05SeenKey]bool{}); ok {
 		nz, nonZero, bad := 0, 0, 0
 		for _, lf := range leaves {
 			if k, ok := lf.v.(*ssa.Const); ok && k.Value == nil && !k.IsNil() {
@@ -304,8 +366,17 @@ func runC05(c *Ctx) {
 			fi := w.Info(cand)
 			want := map[string]bool{}
 			for _, call := range []*ssa.Call{vcCall, vCall} {
-				for _, d := range c05Lift(w, desc(callArgs(call)[0]), call.Parent(), cand, 4) {
-					want["NE("+d+",nil)"] = true
+				// the fields the consulted validators are read from, wherever the read sits (next to the call, in a
+				// selecting helper, in the function that wraps the client in an adapter), in the candidate's frame
+				loads, _ := c05ReceiverLoads(w, call)
+				for _, ld := range loads {
+					f := c05ParentOf(ld)
+					if f == nil {
+						continue
+					}
+					for _, d := range c05Lift(w, desc(ld), f, cand, 4) {
+						want["NE("+d+",nil)"] = true
+					}
 				}
 			}
 			cut := fi.edgesMatching(func(l string, _ *ssa.If, _ bool) bool { return want[l] })
@@ -361,7 +432,7 @@ func runC05(c *Ctx) {
 			}
 		}
 		c.Check(resArg != nil && errCarry.all(resArg, 0), "aggregator/results-argument", "provenance: the aggregator receives the results returned by the validator that was consulted", w.InstrPos(aCall), "results argument is "+c05Desc(resArg))
-		okC, dC := chainOK(chainArg, aCall.Parent())
+		okC, dC := chainOK(chainArg, nil, aCall.Parent())
 		c.Check(okC, "aggregator/chain-argument", "provenance: the aggregator receives the same complete certificate chain", w.InstrPos(aCall), "chain argument is "+dC)
 	}
 	// A range-over-func loop over the standard slice iterators is decided on its index-loop form (see c05Desugar).
@@ -390,16 +461,32 @@ func unwrapLoadAlloc(v ssa.Value) (*ssa.Alloc, bool) {
 // c05Constructor: fields consulted by R are set non-nil on constructor success.
 func c05Constructor(c *Ctx, R *ssa.Function, vcCall, vCall *ssa.Call) {
 	w := c.W
-	fieldOfRecv := func(v ssa.Value) (string, int) {
-		if u, ok := v.(*ssa.UnOp); ok && u.Op == token.MUL {
-			if fa, ok := u.X.(*ssa.FieldAddr); ok {
-				return namedOf(fa.X.Type()), fa.Field
-			}
+	// the field of the verifier a validator call's receiver is read from (one field per interface; the read may sit in a
+	// helper that selects or wraps the validator)
+	fieldOfRecv := func(call *ssa.Call) (string, int) {
+		loads, ok := c05ReceiverLoads(w, call)
+		if !ok {
+			return "", -1
 		}
-		return "", -1
+		t, f := "", -1
+		for _, v := range loads {
+			u, ok := v.(*ssa.UnOp)
+			if !ok || u.Op != token.MUL {
+				return "", -1
+			}
+			fa, ok := u.X.(*ssa.FieldAddr)
+			if !ok {
+				return "", -1
+			}
+			if f >= 0 && (namedOf(fa.X.Type()) != t || fa.Field != f) {
+				return "", -1
+			}
+			t, f = namedOf(fa.X.Type()), fa.Field
+		}
+		return t, f
 	}
-	t1, f1 := fieldOfRecv(callArgs(vcCall)[0])
-	t2, f2 := fieldOfRecv(callArgs(vCall)[0])
+	t1, f1 := fieldOfRecv(vcCall)
+	t2, f2 := fieldOfRecv(vCall)
 	if f1 < 0 || f2 < 0 || t1 != t2 {
 		c.Unk("constructor/fields", "anchor: the verifier fields holding the code-signing validator and the client", w.FnPos(R), "not recognised")
 		return
